@@ -296,7 +296,11 @@ def particle_number_measurement(
 
     if shots is None:
         if marginal_sampling:
-            probabilities = state.get_marginal_fock_probabilities(modes=modes)
+            # NOTE: The modes of the instruction are indices among the modes which are
+            # still active, whereas the state expects the original mode indices.
+            probabilities = state.get_marginal_fock_probabilities(
+                modes=map_to_original_modes(modes, postselected_modes)
+            )
 
             return [
                 Branch(
